@@ -137,6 +137,12 @@ theorem sortOn_perm_of_nodup {α : Type} (key : α → Str) (l₁ l₂ : List α
     (hnd : (l₁.map key).Nodup) : sortOn key l₁ = sortOn key l₂ :=
   sortOn_perm key l₁ l₂ hp (eq_of_nodup_map key l₁ hnd)
 
+/-- a list that is already ordered by the key is left as it is (the sort is stable: ties keep their order) -/
+theorem sortOn_of_sorted {α : Type} (key : α → Str) (l : List α)
+    (h : l.Pairwise (fun a b => strLe (key a) (key b) = true)) : sortOn key l = l := by
+  unfold sortOn
+  exact List.mergeSort_of_pairwise h
+
 theorem sortOn_sorted {α : Type} (key : α → Str) (l : List α) :
     (sortOn key l).Pairwise (fun a b => strLe (key a) (key b) = true) := by
   unfold sortOn
